@@ -44,6 +44,8 @@ pub struct SimPeer {
     pub connected: bool,
     /// follows the growth of its chain and pushes new last states (subscribe = true)
     pub follow: bool,
+    /// deviating peer: corrupts the block filter hashes it serves (C06)
+    pub bad_filter_hashes: bool,
 }
 
 pub const START_TIME: u64 = 1_700_000_000_000;
@@ -181,7 +183,7 @@ impl World {
     pub fn connect(&mut self, chain: usize, tip: u64, follow: bool) -> PeerIndex {
         let index = PeerIndex::new(self.next_index);
         self.next_index += 1;
-        self.sim_peers.push(SimPeer { index, chain, tip, connected: true, follow });
+        self.sim_peers.push(SimPeer { index, chain, tip, connected: true, follow, bad_filter_hashes: false });
         let shared = Arc::clone(&self.shared);
         let c = self.cm();
         futures::executor::block_on(c.sync.connected(ctx(&shared, SupportProtocols::Sync), index, "2"));
@@ -374,6 +376,26 @@ impl World {
                 packed::BlockFilterMessageUnion::GetBlockFilterHashes(req) => {
                     stat = Some("GetBlockFilterHashes");
                     if let Some(r) = view.block_filter_hashes(req.start_number().unpack(), self.cfg.hashes_batch) {
+                        let r = if sp.bad_filter_hashes {
+                            // every hash from the second one on is wrong (consistently, so the peer does not contradict itself)
+                            let hs: Vec<packed::Byte32> = r
+                                .block_filter_hashes()
+                                .into_iter()
+                                .enumerate()
+                                .map(|(i, h)| {
+                                    if i == 0 {
+                                        h
+                                    } else {
+                                        let mut b = h.as_slice().to_vec();
+                                        b[0] ^= 0xff;
+                                        packed::Byte32::from_slice(&b).unwrap()
+                                    }
+                                })
+                                .collect();
+                            r.as_builder().block_filter_hashes(hs.pack()).build()
+                        } else {
+                            r
+                        };
                         out.push((SupportProtocols::Filter, server::wrap_filter(r).as_bytes()));
                     }
                 }
